@@ -197,6 +197,29 @@ def run(chk, repo, pid):
                                       f'`{sub.slice.id}` is a position in `{pos[sub.slice.id]}` (a filtered copy of '
                                       f'`{filt[pos[sub.slice.id]]}`); it is used to subscript another sequence: every element '
                                       f'dropped by the filter shifts it'))
+        # the result of a helper that can return None is used as a subscript without a test for None
+        for a_ in ast.walk(f.node):
+            if isinstance(a_, ast.Assign) and isinstance(a_.value, ast.Call) and isinstance(a_.value.func, ast.Name) \
+                    and isinstance(a_.targets[0], ast.Name):
+                g_ = dict.get(f.module.functions, a_.value.func.id)
+                if g_ is None or g_.cls is not None or g_.parent is not None:
+                    continue
+                rets_ = [x for x in walk_no_nested(g_.node) if isinstance(x, ast.Return)]
+                none_ = [x for x in rets_ if x.value is None or (isinstance(x.value, ast.Constant) and x.value.value is None)]
+                if not none_ or len(none_) == len(rets_):
+                    continue
+                v_ = a_.targets[0].id
+                uses_ = [s_ for s_ in ast.walk(f.node) if isinstance(s_, ast.Subscript) and isinstance(s_.slice, ast.Name)
+                         and s_.slice.id == v_ and isinstance(s_.ctx, ast.Load)]
+                tested_ = any(isinstance(t_, ast.Compare) and isinstance(t_.left, ast.Name) and t_.left.id == v_
+                              and isinstance(t_.comparators[0], ast.Constant) and t_.comparators[0].value is None
+                              for t_ in ast.walk(f.node)) or any(
+                    isinstance(t_, (ast.If, ast.IfExp, ast.While)) and v_ in {x.id for x in ast.walk(t_.test)
+                                                                              if isinstance(x, ast.Name)} for t_ in ast.walk(f.node))
+                if uses_ and not tested_:
+                    found.append(('None used as key', uses_[0].lineno, f'{v_} = {g_.name}(..); {unparse(uses_[0])[:40]}',
+                                  f'`{g_.name}` returns None on some path (line {none_[0].lineno}); the result is used as a key '
+                                  f'without a test'))
         # memoisation that cannot be right: a cache on a generator function hands the same (exhausted) generator to every later
         # caller; a cache keyed by a Model merges models that compare equal but differ in what __eq__ ignores (name, dataset)
         decos = [(dotted(d.func) if isinstance(d, ast.Call) else dotted(d)) or '' for d in getattr(f.node, 'decorator_list', [])]
@@ -227,4 +250,4 @@ def run(chk, repo, pid):
                 chk.violation(Y0, f.module.rel, f.qualname, f'loop-carried flag `{v}`',
                               'tested and cleared in an inner loop, initialised outside the outer loop', line=M.lineno,
                               advisory=True)
-    chk.instance(Y0, f'{nfun} functions of {len(mods)} anchored modules scanned for 18 defect shapes', n=nfun)
+    chk.instance(Y0, f'{nfun} functions of {len(mods)} anchored modules scanned for 19 defect shapes', n=nfun)
